@@ -317,8 +317,14 @@ def simulate(count, seed, tag):
     if p.returncode != 0 or not ok:
         raise common.ToolError("TLC simulation failed (exit %s), see %s" % (p.returncode, out_path))
     os.remove(out_path)
-    # the larger the better: keep the biggest modules
-    cases.sort(key=lambda c: -c["n"])
+    # The completed derivations TLC meets along one random walk share long prefixes: keep the largest module per
+    # distinct first half, the larger the better.
+    best = {}
+    for c in cases:
+        half = tuple(spell(t) for t in c["toks"][:max(6, len(c["toks"]) // 2)])
+        if half not in best or best[half]["n"] < c["n"]:
+            best[half] = c
+    cases = sorted(best.values(), key=lambda c: (-c["n"], canon(c)))
     return [{"id": i, "focus": "sim", "toks": c["toks"], "tree": expected_tree(c["tree"]), "n": c["n"]} for i, c in enumerate(cases)]
 
 
